@@ -11,6 +11,7 @@ import (
 	"path/filepath"
 	"sort"
 	"strings"
+	gotime "time"
 
 	"verifharness/internal/coqfmt"
 	"verifharness/internal/hist"
@@ -201,9 +202,33 @@ func runHist(cfg *config) error {
 	failSigs := map[string]int{}
 
 	var lastRun *hist.Run
+	// a history that does not come back (a request that blocks for good) ends the engine: the server
+	// it ran on is stuck, so the history is reported as it is and nothing further is run
+	var hung *hist.History
+	runFull := func(h *hist.History) (*hist.Run, *hist.Outcome) {
+		type ret struct {
+			run *hist.Run
+			o   *hist.Outcome
+		}
+		ch := make(chan ret, 1)
+		go func() {
+			run, o := rn.RunFull(ctx, h)
+			ch <- ret{run, o}
+		}()
+		select {
+		case x := <-ch:
+			return x.run, x.o
+		case <-gotime.After(90 * gotime.Second):
+			hung = h
+			return nil, &hist.Outcome{Fatal: "the history did not finish within 90 s: a request hangs"}
+		}
+	}
 	runOne := func(h *hist.History) (*hist.Outcome, []hist.Problem) {
-		run, o := rn.RunFull(ctx, h)
+		run, o := runFull(h)
 		lastRun = run
+		if hung != nil {
+			return o, []hist.Problem{{Kind: "history-hangs", Step: -1, Detail: "the history did not finish within 90 s: some request never returns"}}
+		}
 		if o.Fatal != "" {
 			return o, []hist.Problem{{Kind: "harness-fatal", Detail: o.Fatal}}
 		}
@@ -456,6 +481,17 @@ func runHist(cfg *config) error {
 		}
 		h.Seed = cfg.seed
 		o, ps := runOne(h)
+		if hung != nil {
+			res.Evaluations++
+			res.count("fail.history-hangs")
+			res.Violations = append(res.Violations, Violation{Kind: "history-hangs", Detail: fmt.Sprintf("history %d (%s, %d clients, %d steps, not shrunk: the server it ran on is stuck): some request never returns", i, g.Flavor, h.N, len(h.Steps)),
+				Replay: h, Sig: map[string]any{}})
+			// no orderly shutdown: it would wait for the request that hangs
+			res.Nontrivial = len(seen)
+			res.Rule = "random multi-client histories executed on a real in-process server; the run was cut short by a history that did not finish"
+			_ = res.write(cfg.out)
+			os.Exit(0)
+		}
 		res.Evaluations++
 		res.count("flavor." + g.Flavor)
 		res.count(fmt.Sprintf("clients.%d", h.N))
